@@ -19,6 +19,8 @@
 (*   esel   path -> name|"-"      *_SUBCOMMAND variables                   *)
 (*   eopt   SUBSET paths          *_X variables                            *)
 (*   strict BOOLEAN               the config is the call's own input (parse_object/parse_string) rather than --cfg *)
+(*   icfg   SUBSET 1..Len(argv)   levels whose OWN config argument is given on the command line (after the      *)
+(*                                sub-command's name, before its --x): value tag 4                               *)
 (*   dcf    BOOLEAN               the config is a DEFAULT CONFIG FILE of the root parser: in the documented order  *)
 (*                                it comes before the environment, which therefore overrides it                    *)
 (*                                                                         *)
@@ -36,6 +38,7 @@ Level(x, chosen, sections) == [x |-> x, chosen |-> chosen, sections |-> sections
 
 \* value of option x of the parser at path p: the last source in documented order that provides it
 XVal(in, p) == IF IsPrefix(p, in.argv) /\ Len(p) \in in.aopt THEN 3
+               ELSE IF IsPrefix(p, in.argv) /\ Len(p) \in in.icfg THEN 4        \* the sub-command's own --cfg, given at its position
                ELSE IF ~in.dcf /\ p \in in.csec THEN 2
                ELSE IF in.env /\ p \in in.eopt THEN 1
                ELSE IF in.dcf /\ p \in in.csec THEN 2
